@@ -288,8 +288,8 @@ def calibrate_saves() -> str | None:
 
 def random_life_shape(rng: random.Random) -> dict:
     """A random mtl-shaped life graph (trunk over shared leaves, features, disjoint heads with
-    their own task leaves or - parameter-free heads - none), larger and less regular than the
-    skeletons of GraphLife.tla."""
+    their own task leaves or - parameter-free heads - none, with or without a parameter-only
+    branch), larger and less regular than the skeletons of GraphLife.tla."""
     g: list[dict] = []
 
     def add(nd) -> int:
@@ -345,7 +345,31 @@ def random_life_shape(rng: random.Random) -> dict:
                     cur = op([cur, cur])
             else:
                 cur = op([cur, rng.choice(feats)])
+        # a parameter-only branch (a regulariser added to the loss): computed from the head's own
+        # leaves alone - ones the data term uses too and / or a leaf that occurs nowhere else -, one
+        # to three ops, joined to the data term before or after the reduction.  No path from the loss
+        # to a feature passes through it.
+        reg_after = None
+        if rng.random() < 0.45:
+            pool_r = list(tl)
+            if not pool_r or rng.random() < 0.6:
+                pool_r.append(add({"k": "acc", "c": [], "sz": rng.choice([1, 1, 3])}))
+            a = pool_r[-1] if rng.random() < 0.6 else rng.choice(pool_r)
+            reg = op([a]) if rng.random() < 0.5 else op([a, rng.choice(pool_r)])
+            used.update(g[reg - 1]["c"])
+            if rng.random() < 0.35:
+                reg = op([reg])
+            if rng.random() < 0.25:
+                t = rng.choice(pool_r)
+                used.add(t)
+                reg = op([reg, t])
+            if rng.random() < 0.5:
+                cur = op([cur, reg])
+            else:
+                reg_after = add({"k": "sum", "c": [reg], "sz": 0})
         cur = add({"k": "sum", "c": [cur], "sz": 0})
+        if reg_after is not None:
+            cur = op([cur, reg_after])
         losses.append(cur)
         taskp.append(sorted(used))
 
